@@ -1010,6 +1010,10 @@ class DNA(symbolic.Object):
                   f'the dictionary {dict_repr!r}.')
 
             if isinstance(value, DNA):
+              # NOTE: a DNA that has no parent would be moved (not copied)
+              # into the new tree, which changes the caller's object.
+              if value.sym_parent is None:
+                value = value.clone(deep=True)
               children.append(value)
             else:
               choice_index = _choice_index(subchoice, value)
